@@ -237,8 +237,15 @@ def gen_edit(r, rng):
         new = [r.new_item() for _ in range(rng.randrange(0, 4))]
         cs = [rng.choice([0, 1, 2, 3, 9]) for _ in new]
 
+        # what the caller assigns is any iterable of pairs: a list, a tuple, or something that can be walked only ONCE
+        # (zip of two lists, a generator, an iterator, the items view of a dict, a map)
+        shape = rng.choice(["list", "list", "tuple", "zip", "generator", "iter", "dict-items", "map"])
+
         def assign():
-            r.blk.platforms = [(c, it) for c, (_, it) in zip(cs, new)]
+            pairs = [(c, it) for c, (_, it) in zip(cs, new)]
+            r.blk.platforms = {"list": lambda: pairs, "tuple": lambda: tuple(pairs), "zip": lambda: zip(cs, [it for _, it in new]),
+                               "generator": lambda: (p for p in pairs), "iter": lambda: iter(pairs),
+                               "dict-items": lambda: (dict(pairs).items() if len(set(cs)) == len(cs) else pairs), "map": lambda: map(tuple, pairs)}[shape]()
         return (assign, [Sym("assignPairs"), [[c, m] for c, (m, _) in zip(cs, new)]], "assign pairs")
     # platdata
     new = [r.new_item() for _ in range(rng.randrange(0, 4))]
@@ -344,6 +351,16 @@ def run(ctx):
                 if desc == "add explicit free":
                     if exc is not None or items[:-1] != pi or chans[-1] != medit[2]:
                         ctx.fail(f"{kind}: a free explicit channel {medit[2]} was not honoured ({type(exc).__name__ if exc else chans})", rp, ident=f"{kind} free channel not honoured")
+                        break
+                if desc == "assign pairs":
+                    want = [(c, mk) for c, mk in medit[1]]
+                    distinct = len({c for c, _ in want}) == len(want)
+                    if exc is None and list(zip(chans, items)) != want:
+                        ctx.fail(f"{kind}: the pairs {want} were assigned (any iterable of pairs) without an error, but the block now holds {list(zip(chans, items))}: explicit channels not honoured", rp,
+                                 ident=f"{kind} assigned pairs not installed")
+                        break
+                    if exc is not None and distinct:
+                        ctx.fail(f"{kind}: assigning pairs with distinct channels {[c for c, _ in want]} was refused ({type(exc).__name__})", rp, ident=f"{kind} valid assignment refused")
                         break
                 if desc == "add auto":
                     if exc is not None or len(items) != len(pi) + 1 or chans[-1] in pc:
